@@ -111,7 +111,13 @@ def run(tier):
         json.dump(chosen, open(cp, 'w'))
         r = vlib.run_cmd([binp, 'run', '-cases', cp, '-out', op, '-seed', str(vlib.seed()), '-random', '12' if tier == 'quick' else '400'], timeout=3300)
         if r.returncode != 0 or not os.path.exists(op):
-            raise vlib.Infra('c12 run failed: ' + (r.stdout + r.stderr)[-3000:])
+            inf = ''
+            if os.path.exists(op):
+                try:
+                    inf = ' infra: %s' % json.load(open(op)).get('infra')
+                except ValueError:
+                    pass
+            raise vlib.Infra('c12 run failed (rc=%s):%s %s' % (r.returncode, inf, (r.stdout + r.stderr)[-3000:]))
         out = json.load(open(op))
         viols = []
         seen = set()
